@@ -916,7 +916,7 @@ class Executor(object):
                         out.extend(self.load_attr(s1, o1, attr))
                     return out
                 self._undecided("attribute %s not in schema (class %s)" % (attr, obj.cls))
-            if t in ("labels", "auxframe"):
+            if t in ("labels", "auxframe", "custom"):
                 h = getattr(self, "ext_load_attr", None)
                 r = h(st, obj, attr) if h else None
                 if r is not None:
